@@ -3,7 +3,6 @@
 use crate::router::{base::Router, segments::RouteSegments};
 use crate::fang::{Fang, BoxedFPC};
 use crate::fang::handler::{Handler, IntoHandler};
-use crate::response::Content;
 use crate::Ohkami;
 use std::sync::Arc;
 
@@ -300,11 +299,9 @@ const _: () = {
                         Handler::new(|_| Box::pin(async {
                             let mut res = crate::Response::OK();
                             {
-                                res.headers.set().ContentType(this.mime);
-                                res.content = Content::Payload({
-                                    let content: &'static [u8] = &this.content;
-                                    content.into()
-                                });
+                                let content: &'static [u8] = &this.content;
+                                /* sets `Content-Length` together with the content */
+                                res.set_payload(this.mime, content);
                             }
                             res
                         }), #[cfg(feature="openapi")] {use crate::openapi;
